@@ -860,6 +860,75 @@ class MatchFn(Fn):
         return self
 
 
+class GMatchFn(Fn):
+    """directed family: a match on the GENERIC union IOpt<T>.  The target is an annotated parameter (IOpt<int>, IOpt<string>, IOpt<[]int>)
+    or a local bound to a constructor application (let r = ISome a1: IOpt<type of a1>, generic); the payload variable has the
+    type argument's type and relates the parameters it meets; the emitted switch must name the instantiated case types"""
+
+    def build(self):
+        rng = self.rng
+        n = rng.randint(2, 3)
+        self.params = ["a%d" % i for i in range(n)]
+        self.ptypes = []
+        for q in self.params:
+            t = ["var", "p_" + q]
+            self.env[q] = t
+            self.ptypes.append(t)
+        lines = []
+        if rng.random() < 0.5:
+            u = self.params[0]
+            txt, targ = rng.choice([("IOpt<int>", INT), ("IOpt<string>", STR), ("IOpt<[]int>", sl(INT))])
+            self.forced[u] = (txt, ["named", "IOpt", [targ]])
+            self.env[u] = self.ptypes[0] = ["named", "IOpt", [targ]]
+            target = u
+            others = self.params[1:]
+        else:
+            src = self.params[0]
+            inst = self.fresh()
+            self.eq(self.env[src], inst)
+            targ = inst
+            lines.append("let r = ISome %s" % src)
+            self.stmts.append(["let", "r", call("ISome", V(src))])
+            target = "r"
+            others = self.params[1:]
+        d = others[0]
+        e = others[-1]
+        shape = rng.choice(["sn", "ns", "sd", "nd"])          # both cases in either order / one case and a default
+        kind = rng.choice(["w", "slicew", "pairw", "ignore"]) if shape != "nd" else "ignore"     # (a default rule has no payload variable)
+        if kind == "w":
+            some = ("w1", targ, V("w1"), "w1")
+            none = (d, self.env[d], V(d))
+        elif kind == "slicew":
+            some = ("[w1; %s]" % d, sl(targ), ["slice", [V("w1"), V(d)]], "w1")
+            self.eq(targ, self.env[d])
+            none = ("[%s]" % e, sl(self.env[e]), ["slice", [V(e)]])
+        elif kind == "pairw":
+            some = ("(w1, %s)" % e, tup(targ, self.env[e]), ["tuple", [V("w1"), V(e)]], "w1")
+            none = ("(%s, %s)" % (d, e), tup(self.env[d], self.env[e]), ["tuple", [V(d), V(e)]])
+        else:
+            some = ("[%s]" % d, sl(self.env[d]), ["slice", [V(d)]], "")
+            none = ("[%s]" % e, sl(self.env[e]), ["slice", [V(e)]])
+        self.eq(some[1], none[1])
+        pat_some = "ISome %s" % (some[3] or "_")
+        rules = {"sn": [("ISome", some), ("INone", none)], "ns": [("INone", none), ("ISome", some)],
+                 "sd": [("ISome", some), ("_", none)], "nd": [("INone", none), ("_", some)]}[shape]
+        texts, arms, dflt = [], [], []
+        for cname, body in rules:
+            if cname == "_":
+                texts.append("| _ -> %s" % body[0])
+                dflt = [body[2]]
+            elif cname == "ISome":
+                texts.append("| %s -> %s" % ("ISome %s" % (body[3] or "_"), body[0]))
+                arms.append(["ISome", body[3], body[2]])
+            else:
+                texts.append("| INone -> %s" % body[0])
+                arms.append(["INone", "", body[2]])
+        self.body = lines + ["match %s with" % target] + texts
+        self.fin = ["match", target, arms, dflt]
+        self.res = rules[0][1][1]
+        return self
+
+
 class Callee(Fn):
     """a small generic function with a well-known shape (the callee of CallFn)"""
     TEMPLATES = [
@@ -969,6 +1038,8 @@ def generate(rng, n):
             f = FldFn(rng, i)
         elif i % 10 == 2:
             f = MatchFn(rng, i)
+        elif i % 20 == 11:
+            f = GMatchFn(rng, i)
         elif i % 10 == 6:
             f = Callee(rng, i)
         elif i % 10 == 7:
